@@ -525,8 +525,18 @@ func (f *frame) runLoop(li *loopInfo, order []*ssa.BasicBlock) {
 		k, srt string
 		old    Term
 		excl   string // excluded objects (`frame modifies`), with %Q% for the bound variable
+		mark   Term   // allocation watermark: objects that existed then are the ones that must be unchanged
 	}
 	var frameKeys []frameKey
+	// `frame loop e, ...`: the buffers the loop may write — each stays the object it was at loop
+	// entry or moves to an object allocated after loop entry (append reallocating); an invariant
+	// generated for every named expression, assumed at the head and proved at the back edges
+	type loopBuf struct {
+		e         Expr
+		entryBase Term
+	}
+	var loopBufs []loopBuf
+	var loopMark Term
 	var heap1 *heapState
 	if wholesale {
 		heap1 = c.newEpoch()
@@ -576,6 +586,22 @@ func (f *frame) runLoop(li *loopInfo, order []*ssa.BasicBlock) {
 				c.nonFresh[k] = true
 				excl := ""
 				skip := false
+				mark := c.nalloc(f.entry)
+				if spec.FrameLoop {
+					// `loop k: frame loop e, ...`: the watermark is the loop's own entry; the objects the
+					// expressions denote there (a slice's backing array, a pointer's or map's object) may
+					// change — typically the buffer the loop fills, or nothing at all
+					mark = c.nalloc(be.heap)
+					env := f.loopEnv(li, entryVals, be.heap)
+					for _, e := range spec.FrameLoopX {
+						v := f.evalSpec(env, e)
+						t := v.T
+						if t.Sort == SSlice {
+							t = sBase(t)
+						}
+						excl += fmt.Sprintf(" (not (= %s %s))", "%Q%", t.S)
+					}
+				}
 				if spec.FrameMod && f.contract != nil {
 					// `loop k: frame modifies`: ... except the objects named by the function's modifies clause
 					allowed, whole, all := f.frameAllowed(f.contract)
@@ -592,8 +618,8 @@ func (f *frame) runLoop(li *loopInfo, order []*ssa.BasicBlock) {
 					old := c.heapGet(be.heap, k, srt)
 					ex := strings.ReplaceAll(excl, "%Q%", q)
 					c.assume(Term{fmt.Sprintf("(forall ((%s Int)) (! (=> (and (>= %s (- %s))%s) (= (select %s %s) (select %s %s))) :pattern ((select %s %s))))",
-						q, q, c.nalloc(f.entry).S, ex, nv.S, q, old.S, q, nv.S, q), SBool})
-					frameKeys = append(frameKeys, frameKey{k, srt, old, excl})
+						q, q, mark.S, ex, nv.S, q, old.S, q, nv.S, q), SBool})
+					frameKeys = append(frameKeys, frameKey{k, srt, old, excl, mark})
 				}
 			} else if k != allocKey {
 				c.nonFresh[k] = true
@@ -602,12 +628,31 @@ func (f *frame) runLoop(li *loopInfo, order []*ssa.BasicBlock) {
 			c.writes[k] = true
 		}
 	}
+	if spec != nil && spec.FrameLoop {
+		loopMark = c.name("loopmark", c.nalloc(be.heap))
+		env := f.loopEnv(li, entryVals, be.heap)
+		for _, e := range spec.FrameLoopX {
+			v := f.evalSpec(env, e)
+			t := v.T
+			if t.Sort == SSlice {
+				t = sBase(t)
+			}
+			loopBufs = append(loopBufs, loopBuf{e, c.name("loopbuf", t)})
+		}
+	}
 	hv := map[*ssa.Phi]Val{}
+	nLoopInts := len(c.loopInts)
 	for _, p := range phis {
 		v := f.havocVal(p.Type(), f.vname(p), heap1)
 		f.vals[p] = v
 		hv[p] = v
+		if t, ok := v.(Term); ok && t.Sort == SInt && isSymbol(t.S) {
+			if _, isInt := basicInt(p.Type()); isInt {
+				c.loopInts = append(c.loopInts, t.S)
+			}
+		}
 	}
+	defer func() { c.loopInts = c.loopInts[:nLoopInts] }()
 	reachH := be.reach
 	// 4. assume invariants
 	var variant0, variant0b Term
@@ -615,6 +660,13 @@ func (f *frame) runLoop(li *loopInfo, order []*ssa.BasicBlock) {
 		env := f.loopEnv(li, hv, heap1)
 		for _, inv := range spec.Invariants {
 			f.assumeClause(env, inv, reachH)
+		}
+		for _, lb := range loopBufs {
+			t := f.evalSpec(env, lb.e).T
+			if t.Sort == SSlice {
+				t = sBase(t)
+			}
+			c.assume(implies(reachH, or(eq(t, lb.entryBase), lt(t, mk(SInt, "-", loopMark)))))
 		}
 		for _, as := range spec.Assumes {
 			f.assumeClause(env, as, reachH)
@@ -672,12 +724,19 @@ func (f *frame) runLoop(li *loopInfo, order []*ssa.BasicBlock) {
 		for j, inv := range spec.Invariants {
 			f.obligeClause("invariant-step", fmt.Sprintf("%s.inv%d@back%d", lname, j+1, k.from.Index), env, inv, es.cond, f.pos(lastPos(k.from)), false)
 		}
+		for j, lb := range loopBufs {
+			t := f.evalSpec(env, lb.e).T
+			if t.Sort == SSlice {
+				t = sBase(t)
+			}
+			c.oblige("frame", fmt.Sprintf("%s.framebuf%d@back%d", lname, j+1, k.from.Index), es.cond, or(eq(t, lb.entryBase), lt(t, mk(SInt, "-", loopMark))), f.pos(lastPos(k.from)), "loop frame: the buffer named by `frame loop` is the object it was at loop entry or one allocated since")
+		}
 		for _, fk := range frameKeys {
 			c.counter["q"]++
 			q := quote(fmt.Sprintf("q ref %d", c.counter["q"]))
 			cur := c.heapGet(es.heap, fk.k, fk.srt)
-			goal := Term{fmt.Sprintf("(forall ((%s Int)) (=> (and (>= %s (- %s))%s) (= (select %s %s) (select %s %s))))", q, q, c.nalloc(f.entry).S, strings.ReplaceAll(fk.excl, "%Q%", q), cur.S, q, fk.old.S, q), SBool}
-			c.oblige("frame", fmt.Sprintf("%s.frame:%s@back%d", lname, frameKeyName(fk.k), k.from.Index), es.cond, goal, f.pos(lastPos(k.from)), "loop frame: objects that existed at function entry are unchanged ("+frameKeyName(fk.k)+")")
+			goal := Term{fmt.Sprintf("(forall ((%s Int)) (=> (and (>= %s (- %s))%s) (= (select %s %s) (select %s %s))))", q, q, fk.mark.S, strings.ReplaceAll(fk.excl, "%Q%", q), cur.S, q, fk.old.S, q), SBool}
+			c.oblige("frame", fmt.Sprintf("%s.frame:%s@back%d", lname, frameKeyName(fk.k), k.from.Index), es.cond, goal, f.pos(lastPos(k.from)), "loop frame: objects that existed at the frame's reference point (function entry / loop entry) and are not named by it are unchanged ("+frameKeyName(fk.k)+")")
 		}
 		if spec.Decreases != nil {
 			if lx, ok := spec.Decreases.E.(*ECall); ok && lx.Fun == "lex" && len(lx.Args) == 2 {
